@@ -355,6 +355,14 @@ def st_history(spec, log, stats):
                 pool.append(d)
                 log.add(kind, len(d))
             continue
+        if kind == "threshold":
+            # process-global knob that silently selects the storage format (DESIGN N7); no filter may depend on it
+            from maze_dataset.dataset.maze_dataset import set_serialize_minimal_threshold
+
+            set_serialize_minimal_threshold(op[1])
+            log.add("threshold", op[1])
+            stats["knob_threshold_changed"] = stats.get("knob_threshold_changed", 0) + 1
+            continue
         if not pool:
             continue
         if kind == "filter":
@@ -449,6 +457,12 @@ def st_history(spec, log, stats):
             if res is not src:
                 pool.append(res)
             log.add("filter", name, _boundary_class(op[2]), len(src), len(res))
+            if len(src) >= 100:
+                stats["probe_input_at_least_100_mazes"] = stats.get("probe_input_at_least_100_mazes", 0) + 1
+            if len(res) >= 100:
+                stats["probe_result_at_least_100_mazes"] = stats.get("probe_result_at_least_100_mazes", 0) + 1
+            if len(m.filters) >= 1 and norm_filter(f) == m.filters[-1]:
+                stats["probe_same_filter_twice_in_a_row"] = stats.get("probe_same_filter_twice_in_a_row", 0) + 1
             if len(res) == 0:
                 stats["probe_empty_result"] = stats.get("probe_empty_result", 0) + 1
             if name.startswith("remove_duplicates") and len(res) < len(m.records):
@@ -551,10 +565,15 @@ def gen_specs(rng: random.Random, tier: str, n: int) -> list[dict]:
     for _ in range(n):
         ops: list = []
         grid = rng.choice([2, 2, 3, 3, 3, 4])
+        big = rng.random() < 0.12  # sizes on both sides of the default minimal-format threshold (100)
+        if big:
+            grid = rng.choice([3, 4, 5])
+        if rng.random() < 0.2:
+            ops.append(["threshold", rng.choice([None, 0, 1, 5, 100])])
         cfg = {
             "name": rng.choice(["t", "f"]),
             "grid_n": grid,
-            "n_mazes": rng.randint(3, 30 if grid <= 3 else 14),
+            "n_mazes": rng.randint(98, 130) if big else rng.randint(3, 30 if grid <= 3 else 14),
             "maze_ctor": rng.choice(["gen_dfs", "gen_dfs", "gen_wilson", "gen_dfs_percolation", "gen_percolation"]),
             "maze_ctor_kwargs": {},
             "endpoint_kwargs": {},
@@ -575,7 +594,12 @@ def gen_specs(rng: random.Random, tier: str, n: int) -> list[dict]:
             ops.append(["filter", len([o for o in ops if o[0] in ("make", "dup", "chain")]) - 1, {"name": "remove_duplicates", "args": [step, rng.choice([None, 0, 1])], "kwargs": {}}])
         for _ in range(rng.randint(3, 9)):
             r = rng.random()
-            if r < 0.88:
+            if r < 0.12 and ops[-1][0] == "filter" and ops[-1][2]["name"] != "collect_generation_meta":
+                # the same filter with the same arguments again, on the result of the previous application
+                ops.append(["filter", -1, dict(ops[-1][2])])
+                if rng.random() < 0.5:
+                    ops.append(["config_chain", -1, cfg["n_mazes"]])
+            elif r < 0.88:
                 ops.append(["filter", rng.randrange(8), rand_filter(rng)])
             else:
                 ops.append(["config_chain", rng.randrange(8), cfg["n_mazes"]])
@@ -586,16 +610,18 @@ def gen_specs(rng: random.Random, tier: str, n: int) -> list[dict]:
 def shrink(spec: dict, result: dict):
     ops = spec["ops"]
     n = len(ops)
-    for i in range(n - 1, 0, -1):
-        yield dict(spec, ops=ops[:i] + ops[i + 1 :])
-    c = ops[0][1] if ops and ops[0][0] == "make" else None
+    for i in range(n - 1, -1, -1):
+        if ops[i][0] != "make" or sum(1 for o in ops if o[0] == "make") > 1:
+            yield dict(spec, ops=ops[:i] + ops[i + 1 :])
+    mi = next((i for i, o in enumerate(ops) if o[0] == "make"), None)
+    c = ops[mi][1] if mi is not None else None
     if c:
         for fld, val in (("n_mazes", max(1, c["n_mazes"] // 2)), ("n_mazes", c["n_mazes"] - 1), ("grid_n", max(2, c["grid_n"] - 1)), ("maze_ctor", "gen_dfs")):
             if c.get(fld) != val and val:
                 c2 = dict(c, **{fld: val})
                 if fld == "maze_ctor":
                     c2["maze_ctor_kwargs"] = {}
-                yield dict(spec, ops=[["make", c2]] + ops[1:])
+                yield dict(spec, ops=ops[:mi] + [["make", c2]] + ops[mi + 1 :])
 
 
 def sample_of(spec, result):
